@@ -17,6 +17,7 @@ package service
 import (
 	"encoding/binary"
 	"fmt"
+	"os"
 	"sort"
 	"strconv"
 	"strings"
@@ -75,12 +76,12 @@ func New(env *hx.Env) *R {
 		if err != nil {
 			e = 1
 		}
-		r.cb = append(r.cb, fmt.Sprintf("resp/%s/%d/%d", id.String(), len(outs), e))
+		r.cb = append(r.cb, fmt.Sprintf("resp/%s/%d/%d", hx.Hex(id), len(outs), e))
 	}); err != nil {
 		hx.Fail("register response callback: %v", err)
 	}
 	if err := env.Service.RegisterStateCallback(CbMod, func(ctx sdk.Context, id tmbytes.HexBytes, cause string) {
-		r.cb = append(r.cb, fmt.Sprintf("state/%s/%s", id.String(), strings.ReplaceAll(cause, " ", "_")))
+		r.cb = append(r.cb, fmt.Sprintf("state/%s/%s", hx.Hex(id), strings.ReplaceAll(cause, " ", "_")))
 	}); err != nil {
 		hx.Fail("register state callback: %v", err)
 	}
@@ -624,7 +625,11 @@ func (r *R) Exec(ctx sdk.Context, line string) (sdk.Context, string) {
 		hx.Fail("unknown op %q", line)
 	}
 	if msg != nil {
-		class = r.env.Deliver(ctx, msg).Class
+		o := r.env.Deliver(ctx, msg)
+		class = o.Class
+		if os.Getenv("VERIF_DEBUG") != "" && class != hx.OK {
+			fmt.Fprintf(os.Stderr, "DBG %s -> %s %s\n", line, class, o.Err)
+		}
 	}
 	if class != hx.OK && f[1] != "next" && f[1] != "skip" {
 		r.cb = nil // callbacks of a reverted transaction did not happen
